@@ -17,6 +17,7 @@ func propC02(c *Ctx) propInfo {
 	c.hashDepthLimit()
 	c.prunedAccessors()
 	c.hashConstants()
+	c.prunedCellLayout()
 	c.floor("E10.cursor-independence", 2)
 	c.floor("E10.single-hash", 5)
 	c.floor("E7.preimage", 5)
